@@ -983,7 +983,10 @@ func (context *layoutContext) remakePage(index int, rootBox bo.BlockLevelBoxITF,
 		pageMakerNextChanged = !next.InitialResumeAt.Equals(resumeAt) ||
 			next.InitialNextPage != nextPage ||
 			next.RightPage != tmp.RightPage ||
-			!next.InitialPageState.Equal(pageState)
+			!next.InitialPageState.Equal(pageState) ||
+			// what this page leaves to the next one besides the in-flow content
+			!sameBoxes(context.reportedToPage[index+1], context.reportedFootnotes) ||
+			!context.brokenOutOfFlow.equal(context.brokenToPage[index+1])
 	}
 
 	if pageMakerNextChanged {
@@ -992,7 +995,8 @@ func (context *layoutContext) remakePage(index int, rootBox bo.BlockLevelBoxITF,
 		// Setting contentChanged to true ensures remake.
 		// If resumeAt  == nil  (last page) it must be false to prevent endless
 		// loops and list index out of range (see #794).
-		remakeState.ContentChanged = resumeAt != nil
+		// (a page that only holds reported footnotes has to be made again as well)
+		remakeState.ContentChanged = resumeAt != nil || len(context.reportedFootnotes) != 0
 		// pageState is already a deepcopy
 		item := tree.PageMaker{
 			InitialResumeAt: resumeAt, InitialNextPage: nextPage, RightPage: tmp.RightPage,
@@ -1004,8 +1008,25 @@ func (context *layoutContext) remakePage(index int, rootBox bo.BlockLevelBoxITF,
 			context.pageMaker[index+1] = item
 		}
 	}
+	if context.reportedToPage == nil {
+		context.reportedToPage, context.brokenToPage = map[int][]Box{}, map[int]*brokenBoxes{}
+	}
+	context.reportedToPage[index+1] = append([]Box(nil), context.reportedFootnotes...)
+	context.brokenToPage[index+1] = context.brokenOutOfFlow.copy()
 
 	return page, resumeAt
+}
+
+func sameBoxes(a, b []Box) bool {
+	if len(a) != len(b) {
+		return false
+	}
+	for i := range a {
+		if a[i] != b[i] {
+			return false
+		}
+	}
+	return true
 }
 
 // Return a list of laid out pages without margin boxes.
@@ -1022,7 +1043,7 @@ func (context *layoutContext) makeAllPages(rootBox bo.BlockLevelBoxITF, html *tr
 			resumeAt tree.ResumeStack
 			page     *bo.PageBox
 		)
-		if len(pages) == 0 || remakeState.ContentChanged || remakeState.PagesWanted {
+		if i >= len(pages) || remakeState.ContentChanged || remakeState.PagesWanted { // (no page to keep, or a stale one)
 			logger.ProgressLogger.Printf("Step 5 - Creating layout - Page %d", i+1)
 			// Reset remakeState
 			context.pageMaker[i].RemakeState = tree.RemakeState{}
@@ -1032,7 +1053,13 @@ func (context *layoutContext) makeAllPages(rootBox bo.BlockLevelBoxITF, html *tr
 		} else {
 			logger.ProgressLogger.Printf("Step 5 - Creating layout - Page %d (up-to-date)", i+1)
 			resumeAt = context.pageMaker[i+1].InitialResumeAt
-			reportedFootnotes = nil
+			// the footnotes this page reported to the next one are still waiting,
+			// and so are the out-of-flow boxes it left unfinished
+			reportedFootnotes = context.reportedToPage[i+1]
+			context.reportedFootnotes = append([]Box(nil), reportedFootnotes...)
+			if broken := context.brokenToPage[i+1]; broken != nil {
+				context.brokenOutOfFlow = broken.copy()
+			}
 			out = append(out, pages[i])
 		}
 
